@@ -22,6 +22,7 @@ import AGH.Lemmas.SafeFSMatch
 import AGH.Lemmas.SafeFSClean
 import AGH.Lemmas.SafeFSDepth
 import AGH.Lemmas.SafeFSEntry
+import AGH.Gen.C17OpenSites
 namespace AGH.C17
 open AGH AGH.Bytes
 
@@ -354,6 +355,66 @@ theorem C17_model_meets_spec (op : Op) (e : Env) : specOK op e (runOp op e) = tr
       have := C17_accept_needs_match op e c src u hop hr ha
       rw [this] at hn; cases hn
     · rw [if_neg hc]; rfl
+
+/-! ### Translator tie: what the Go program does with a filter's URL
+
+`AGH/Gen/C17OpenSites.lean` is regenerated from the typed AST of the current
+tree on every run (extract/cmd/c17): every call in the module that hands a
+path to the file system, with the provenance of the path (backward data flow
+through locals, parameters over all callers, struct fields over all writes,
+results of module functions; unknown calls keep the provenance of their
+arguments), the structure of the safe-pattern test around the sites a filter
+URL reaches, and every value stored into `FilterYAML.URL`.  The theorems below
+are obligations over those tables; they are what ties the function `reader` of
+the model to "every place where the program opens a file named by a list". -/
+
+/-- The path comes from a stored filter URL or from the URL field of a
+filtering API request. -/
+def urlFed (s : Gen.Site) : Bool := (s.prov / 4) % 4 != 0
+
+/-- The path comes from the URL of the rule-list implementation that is not
+wired into the server (`rulelist.Filter`, which accepts `file:` URLs unchecked). -/
+def nextFed (s : Gen.Site) : Bool := (s.prov / 16) % 2 != 0
+
+/-- In the whole module a filter's URL reaches the file system at two calls
+only: the `os.Open` in `DNSFilter.reader`, dominated by
+`v = filepath.Clean(v); if !pathMatchesAny(d.safeFSPatterns, v) { return err }`,
+and the `os.Stat` in `validateFilterURL`, which is followed by the same test
+before the function can return nil.  No read, listing, library open, exec or
+mutation anywhere else is fed by it. -/
+theorem C17_T_url_reaches_fs_only_guarded :
+    ∀ s ∈ Gen.sites, urlFed s = true →
+      (s.op = 0 ∧ s.role = 1 ∧ s.guard = 1) ∨ (s.op = 1 ∧ s.role = 2 ∧ s.guard = 2) := by
+  decide +kernel
+
+/-- There is exactly one call that opens a file named by a filter URL, it is
+the one in `reader`, and its path is nothing but the stored URL (cleaned). -/
+theorem C17_T_single_open_site :
+    (Gen.sites.filter fun s => urlFed s && s.op != 1).length = 1 ∧
+    ∃ s ∈ Gen.sites, s.op = 0 ∧ s.role = 1 ∧ s.guard = 1 ∧ s.prov = 4 := by
+  decide +kernel
+
+/-- The unchecked `file:` reader of `internal/filtering/rulelist` exists but
+nothing outside that package (tests aside) constructs its filters, engines or
+storages: it is not reachable in the server. -/
+theorem C17_T_next_impl_unwired :
+    (∃ s ∈ Gen.sites, nextFed s = true ∧ s.op = 0) ∧ Gen.nextImplRefs = 0 := by
+  decide +kernel
+
+/-- Every value ever stored into a filter's URL is a copy of a stored URL, a
+compiled-in constant, or the URL of an add / set-url request on which
+`validateFilterURL` was called — with an error return — earlier in the same
+handler. -/
+theorem C17_T_url_writes_validated :
+    ∀ w ∈ Gen.urlWrites, w.prov = 4 ∨ w.prov = 32 ∨
+      (w.prov = 8 ∧ w.validated = true ∧ (w.role = 3 ∨ w.role = 4)) := by
+  decide +kernel
+
+/-- Both HTTP entry points are present and validate before they touch the list. -/
+theorem C17_T_both_entry_points_validate :
+    (∃ w ∈ Gen.urlWrites, w.role = 3 ∧ w.prov = 8 ∧ w.validated = true) ∧
+    (∃ w ∈ Gen.urlWrites, w.role = 4 ∧ w.prov = 8 ∧ w.validated = true) := by
+  decide +kernel
 
 /-! ### Observations about the unchanged code (not violations of C17: a crash
 or a refusal reads nothing) -/
